@@ -51,6 +51,9 @@ func (m *Metadata) ReadFrom(r io.Reader) (int64, error) {
 	if err != nil {
 		return 0, err
 	}
+	if len(lenb) != 4 {
+		return 0, io.ErrUnexpectedEOF
+	}
 	len := int(binary.BigEndian.Uint32(lenb))
 
 	for i := 0; i < len; i++ {
@@ -107,7 +110,7 @@ func (m *Metadata) PutInt(key string, n int) {
 
 func (m *Metadata) GetInt(key string) (int, bool) {
 	v, ok := m.Get(key)
-	if !ok {
+	if !ok || len(v) != 8 {
 		return 0, false
 	}
 	return int(binary.BigEndian.Uint64(v)), true
@@ -124,7 +127,7 @@ func (m *Metadata) PutBool(key string, v bool) {
 
 func (m *Metadata) GetBool(key string) (bool, bool) {
 	v, ok := m.Get(key)
-	if !ok {
+	if !ok || len(v) == 0 {
 		return false, false
 	}
 	return v[0] != 0, true
@@ -142,17 +145,21 @@ func (m *Metadata) Get(key string) ([]byte, bool) {
 func readField(r io.Reader) ([]byte, error) {
 	var lenb [4]byte
 
-	_, err := r.Read(lenb[:])
+	_, err := io.ReadFull(r, lenb[:])
 	if err != nil {
 		return nil, err
 	}
 
-	len := binary.BigEndian.Uint32(lenb[:])
+	flen := binary.BigEndian.Uint32(lenb[:])
 
-	fb := make([]byte, len)
-	_, err = r.Read(fb)
+	// read at most flen bytes: the buffer grows with what the reader really holds,
+	// a corrupted length cannot force a large allocation
+	fb, err := io.ReadAll(io.LimitReader(r, int64(flen)))
 	if err != nil {
 		return nil, err
+	}
+	if uint32(len(fb)) != flen {
+		return nil, io.ErrUnexpectedEOF
 	}
 
 	return fb, nil
